@@ -228,7 +228,7 @@ def run_program(job):
         n = len(bytes.fromhex(compile_src(hsrc, Config(False, "gas", EVM), formats=("bytecode",))["bytecode"][2:]))
         entry = dict(entry, src=entry["src"].replace("__BPLEN__", str(n)))
     rng = random.Random(f"{job['seed']}:c14p:{entry['name']}")
-    res = {"name": entry["name"], "findings": [], "stats": {}, "snaps": [], "errors": [], "inputs": [], "ref_runtime": None, "live": []}
+    res = {"name": entry["name"], "findings": [], "stats": {}, "snaps": [], "errors": [], "inputs": [], "ref_runtime": None, "live": [], "texts": {}}
     stats = res["stats"]
     t0 = time.time()
     try:
@@ -306,7 +306,9 @@ def run_program(job):
                 for s in st.snaps:
                     if s["changed"] and s["fn"] != "<ctx>":
                         res["snaps"].append({"prog": entry["name"], "level": level, "pass": s["pass"], "fn": s["fn"], "idx": s["idx"],
-                                             "arg": s["arg"], "before": s["before"], "after": s["after"]})
+                                             "arg": s["arg"], "before": s["before"], "after": s["after"], "ctx": s.get("ctx", {})})
+                        for h in s.get("ctx", {}).values():
+                            res["texts"][h] = st.texts[h]
             obs = observe(entry, out, abi, plan)
             diff = R.first_difference(ref, obs)
             names = H.pipeline_pass_names(level)
